@@ -129,6 +129,22 @@ pub fn c03_configs(tier: Tier) -> Vec<(Cfg, usize)> {
     c.inserts = false;
     c.vt = true;
     v.push((c, if tier == Tier::Quick { d + 1 } else { d }));
+    // bar lines that wrap at a double-width character
+    let mut c = Cfg::base("c03-wide-wrap", 7, 40);
+    c.root = pre_logs(2, two_drawn());
+    c.inserts = false;
+    c.remove = false;
+    c.msgs = vec!["m".into(), "世界世界世界".into(), "a世界世".into()];
+    v.push((c, d));
+    // printed lines exactly as wide as the terminal, followed by empty ones
+    let mut c = Cfg::base("c03-exact-width-logs", 10, 40);
+    c.root = pre_logs(1, two_drawn());
+    c.log_len = 10;
+    c.odd_logs = true;
+    c.inserts = false;
+    c.remove = false;
+    c.msgs = vec!["m".into()];
+    v.push((c, d));
     // empty and multi-line printed lines
     let mut c = Cfg::base("c03-odd-logs", 20, 40);
     c.root = pre_logs(1, two_drawn());
@@ -340,6 +356,20 @@ pub fn c19_configs(tier: Tier) -> Vec<(Cfg, usize)> {
     c.root = pre_logs(3, vec![]);
     c.msgs = vec!["q".repeat(4)];
     v.push((c, if tier == Tier::Quick { 4 } else { 5 }));
+    // double-width characters at odd widths: a character that does not fit the last column wraps early
+    for (w, h) in [(3usize, 3usize), (5, 4)] {
+        let mut c = Cfg::base("c19-wide-chars", w, h);
+        c.height_clauses = true;
+        c.max_bars = 3;
+        c.inserts = false;
+        c.suspend = false;
+        c.bar_println = false;
+        c.remove = false;
+        c.clear_only = true;
+        c.root = pre_logs(2, vec![]);
+        c.msgs = vec!["日".into(), "日本語".into(), "q日本語日".into()];
+        v.push((c, if tier == Tier::Quick { 4 } else { 5 }));
+    }
     // growth and shrinkage of a bottom-aligned region (padding rows), general list-of-bars oracle
     v.extend(focus_cfgs(tier).into_iter().filter(|(c, _)| c.name == "focus-bottom-growth"));
     v
